@@ -101,7 +101,7 @@ func runProp(id, tier string, seed int, repo, verif string, p *propCheck) (code 
 	}()
 	var extra map[string]any
 	if tier == "thorough" && childOverlayDir == "" {
-		extra = map[string]any{"self_validation": selfValidate(c, id, verif)}
+		extra = map[string]any{"self_validation": selfValidate(c, id, verif), "negative_controls": negativeControls(c, id, verif)}
 	}
 	if childOutDir != "" {
 		c.outDir = childOutDir
